@@ -26,6 +26,31 @@
 #include <kernel/lafem/power_vector.hpp>
 #include <limits>
 
+// Capabilities of the tree under verification: calls of the filter classes that can be instantiated only on a
+// revision where the corresponding compile-time defect is fixed.  checks/C06.py try-compiles each call against the
+// tree and writes c06_caps.hpp (one 0/1 macro per capability) into the build include directory; the specification
+// gets the same set (FiltersLife: capability tokens in LCs) and requests exactly the calls that exist.
+#if __has_include("c06_caps.hpp")
+#include "c06_caps.hpp"
+#endif
+#ifndef C06_CAP_MEANB_CONVERT
+#define C06_CAP_MEANB_CONVERT 0
+#endif
+#ifndef C06_CAP_UNITB_CONVERT_OTHER
+#define C06_CAP_UNITB_CONVERT_OTHER 0
+#endif
+#ifndef C06_CAP_CHAIN_CLONE_INTO
+#define C06_CAP_CHAIN_CLONE_INTO 0
+#endif
+#ifndef C06_CAP_POWER_CLONE_INTO
+#define C06_CAP_POWER_CLONE_INTO 0
+#endif
+#ifndef C06_CAP_SEQ_CLONE_INTO
+#define C06_CAP_SEQ_CLONE_INTO 0
+#endif
+static constexpr bool cap_meanb_convert = (C06_CAP_MEANB_CONVERT != 0), cap_unitb_convert_other = (C06_CAP_UNITB_CONVERT_OTHER != 0),
+  cap_chain_clone_into = (C06_CAP_CHAIN_CLONE_INTO != 0), cap_power_clone_into = (C06_CAP_POWER_CLONE_INTO != 0), cap_seq_clone_into = (C06_CAP_SEQ_CLONE_INTO != 0);
+
 using namespace vl;
 
 static std::string vs(const IVec& v) { return vj::dump(vj::from_vec(v)); }
@@ -108,17 +133,17 @@ public:
   template<class DT2, class IT2> void convert(const VarFilter<DT2, IT2, BS>& o)
   {
     kind = o.kind;
-    // MeanFilterBlocked::convert and the cross-type UnitFilterBlocked::convert cannot be instantiated on the
-    // pinned tree (see Filters!Offered); the specification never requests them
+    // MeanFilterBlocked::convert and the cross-type UnitFilterBlocked::convert can be instantiated only where the
+    // capability exists (see Filters!OfferedWith); the specification requests them exactly then
     switch(kind)
     {
       case K_NONE: a.none.convert(o.a.none); break;
       case K_UNIT:
-        if constexpr (BS == 1 || std::is_same<DT, DT2>::value) a.unit.convert(o.a.unit);
+        if constexpr (BS == 1 || std::is_same<DT, DT2>::value || cap_unitb_convert_other) a.unit.convert(o.a.unit);
         else throw std::runtime_error("cross-type UnitFilterBlocked::convert does not compile");
         break;
       case K_MEAN:
-        if constexpr (BS == 1) a.mean.convert(o.a.mean); else throw std::runtime_error("MeanFilterBlocked::convert does not compile");
+        if constexpr (BS == 1 || cap_meanb_convert) a.mean.convert(o.a.mean); else throw std::runtime_error("MeanFilterBlocked::convert does not compile");
         break;
       case K_SLIP: if constexpr (BS > 1) a.slip.convert(o.a.slip); break;
     }
@@ -317,10 +342,10 @@ bool two_calls(Ctx& k, const F& flt, V& vec, bool tuple, const std::string& tag)
 template<class D, class I> struct TT { typedef D DT; typedef I IT; };
 // which convert calls of a class can be instantiated at all
 template<class FT> struct LcCaps { static constexpr bool conv_same = true, conv_other = true; };
-template<class D, class I, int B> struct LcCaps<MeanFilterBlocked<D, I, B>> { static constexpr bool conv_same = false, conv_other = false; };
-template<class D, class I, int B> struct LcCaps<UnitFilterBlocked<D, I, B>> { static constexpr bool conv_same = true, conv_other = false; };
-template<class D, class I, int B> struct LcCaps<FilterChain<SlipFilter<D, I, B>, UnitFilterBlocked<D, I, B>>> { static constexpr bool conv_same = true, conv_other = false; };
-template<class D, class I, int B> struct LcCaps<FilterChain<UnitFilterBlocked<D, I, B>, SlipFilter<D, I, B>>> { static constexpr bool conv_same = true, conv_other = false; };
+template<class D, class I, int B> struct LcCaps<MeanFilterBlocked<D, I, B>> { static constexpr bool conv_same = cap_meanb_convert, conv_other = cap_meanb_convert; };
+template<class D, class I, int B> struct LcCaps<UnitFilterBlocked<D, I, B>> { static constexpr bool conv_same = true, conv_other = cap_unitb_convert_other; };
+template<class D, class I, int B> struct LcCaps<FilterChain<SlipFilter<D, I, B>, UnitFilterBlocked<D, I, B>>> { static constexpr bool conv_same = true, conv_other = cap_unitb_convert_other; };
+template<class D, class I, int B> struct LcCaps<FilterChain<UnitFilterBlocked<D, I, B>, SlipFilter<D, I, B>>> { static constexpr bool conv_same = true, conv_other = cap_unitb_convert_other; };
 template<class DT, class IT> struct OtherT { typedef TT<float, std::uint32_t> Type; };
 template<> struct OtherT<float, std::uint32_t> { typedef TT<double, std::uint64_t> Type; };
 
@@ -364,6 +389,14 @@ bool with_lifecycle_ci(Ctx& k, MK mk, USE use, const std::string& tag)     // ..
   return with_lifecycle<DT, IT>(k, mk, use, tag);
 }
 
+// ... including the in-place clone only where the class offers an instantiable one (capability CI)
+template<bool CI, class DT, class IT, class MK, class USE>
+bool with_lifecycle_if(Ctx& k, MK mk, USE use, const std::string& tag)
+{
+  if constexpr (CI) return with_lifecycle_ci<DT, IT>(k, mk, use, tag);
+  else return with_lifecycle<DT, IT>(k, mk, use, tag);
+}
+
 // the vertex normal vector of a slip filter after the life-cycle operation
 template<class DT, class IT, int BS>
 bool slip_nu_is(Ctx& k, const SlipFilter<DT, IT, BS>& s, const vj::Value& f, const std::string& tag)
@@ -392,14 +425,14 @@ bool run_flat(Ctx& k, int mode, const std::string& tag)
   {
     const vj::Value& fs = f["fs"];
     if(fs.size() == 1)
-      return with_lifecycle<DT, IT>(k, [&](auto t) { typedef decltype(t) T; typedef VarFilter<typename T::DT, typename T::IT, BS> VF;
+      return with_lifecycle_if<cap_chain_clone_into, DT, IT>(k, [&](auto t) { typedef decltype(t) T; typedef VarFilter<typename T::DT, typename T::IT, BS> VF;
         FilterChain<VF> ch; ch.template at<0>() = build_var<typename T::DT, typename T::IT, BS>(fs[0], nb, mode); return ch; }, use, tag + "/chain1");
     if(fs.size() == 2)
-      return with_lifecycle<DT, IT>(k, [&](auto t) { typedef decltype(t) T; typedef typename T::DT D; typedef typename T::IT I; typedef VarFilter<D, I, BS> VF;
+      return with_lifecycle_if<cap_chain_clone_into, DT, IT>(k, [&](auto t) { typedef decltype(t) T; typedef typename T::DT D; typedef typename T::IT I; typedef VarFilter<D, I, BS> VF;
         if(mode == 1) return FilterChain<VF, VF>(build_var<D, I, BS>(fs[0], nb, mode), build_var<D, I, BS>(fs[1], nb, mode));   // the public two-part constructor
         FilterChain<VF, VF> ch; ch.template at<0>() = build_var<D, I, BS>(fs[0], nb, mode); ch.template at<1>() = build_var<D, I, BS>(fs[1], nb, mode); return ch; }, use, tag + "/chain2");
     if(fs.size() == 3)
-      return with_lifecycle<DT, IT>(k, [&](auto t) { typedef decltype(t) T; typedef typename T::DT D; typedef typename T::IT I; typedef VarFilter<D, I, BS> VF;
+      return with_lifecycle_if<cap_chain_clone_into, DT, IT>(k, [&](auto t) { typedef decltype(t) T; typedef typename T::DT D; typedef typename T::IT I; typedef VarFilter<D, I, BS> VF;
         FilterChain<VF, VF, VF> ch; ch.template at<0>() = build_var<D, I, BS>(fs[0], nb, mode); ch.template at<1>() = build_var<D, I, BS>(fs[1], nb, mode);
         ch.template at<2>() = build_var<D, I, BS>(fs[2], nb, mode); return ch; }, use, tag + "/chain3");
     return k.fail("unsupported chain length");
@@ -408,7 +441,7 @@ bool run_flat(Ctx& k, int mode, const std::string& tag)
   {
     const vj::Value& fs = f["fs"]; const vj::Value& names = f["names"];
     bool dup = false;
-    bool ok = with_lifecycle<DT, IT>(k, [&](auto t) { typedef decltype(t) T; typedef typename T::DT D; typedef typename T::IT I; typedef VarFilter<D, I, BS> VF;
+    bool ok = with_lifecycle_if<cap_seq_clone_into, DT, IT>(k, [&](auto t) { typedef decltype(t) T; typedef typename T::DT D; typedef typename T::IT I; typedef VarFilter<D, I, BS> VF;
       FilterSequence<VF> sq;
       if(mode == 0) { for(std::size_t j = 0; j < fs.size(); ++j) sq.push_back(std::make_pair(String(names[j].as_str()), build_var<D, I, BS>(fs[j], nb, mode))); return sq; }
       // create the named slots first (in order), then fill them in reverse order through find_or_add
@@ -458,18 +491,18 @@ bool run_real_pairs(Ctx& k, int mode, const std::string& tag)
   auto use = [&](const auto& g, const std::string& t) { return two_calls(k, g, vec, false, t); };
   if constexpr (BS == 1)
   {
-    if(k0 == "unit" && k1 == "mean") return with_lifecycle<DT, IT>(k, [&](auto t) { typedef decltype(t) T; typedef typename T::DT D; typedef typename T::IT I;
+    if(k0 == "unit" && k1 == "mean") return with_lifecycle_if<cap_chain_clone_into, DT, IT>(k, [&](auto t) { typedef decltype(t) T; typedef typename T::DT D; typedef typename T::IT I;
       return FilterChain<UnitFilter<D, I>, MeanFilter<D, I>>(build_unit1<D, I>(f0, nb, mode), build_mean1<D, I>(f1, mode)); }, use, tag + "/real<unit,mean>");
-    if(k0 == "mean" && k1 == "unit") return with_lifecycle<DT, IT>(k, [&](auto t) { typedef decltype(t) T; typedef typename T::DT D; typedef typename T::IT I;
+    if(k0 == "mean" && k1 == "unit") return with_lifecycle_if<cap_chain_clone_into, DT, IT>(k, [&](auto t) { typedef decltype(t) T; typedef typename T::DT D; typedef typename T::IT I;
       return FilterChain<MeanFilter<D, I>, UnitFilter<D, I>>(build_mean1<D, I>(f0, mode), build_unit1<D, I>(f1, nb, mode)); }, use, tag + "/real<mean,unit>");
-    if(k0 == "unit" && k1 == "unit") return with_lifecycle<DT, IT>(k, [&](auto t) { typedef decltype(t) T; typedef typename T::DT D; typedef typename T::IT I;
+    if(k0 == "unit" && k1 == "unit") return with_lifecycle_if<cap_chain_clone_into, DT, IT>(k, [&](auto t) { typedef decltype(t) T; typedef typename T::DT D; typedef typename T::IT I;
       return FilterChain<UnitFilter<D, I>, UnitFilter<D, I>>(build_unit1<D, I>(f0, nb, mode), build_unit1<D, I>(f1, nb, mode)); }, use, tag + "/real<unit,unit>");
   }
   else
   {
-    if(k0 == "slip" && k1 == "unit") return with_lifecycle<DT, IT>(k, [&](auto t) { typedef decltype(t) T; typedef typename T::DT D; typedef typename T::IT I;
+    if(k0 == "slip" && k1 == "unit") return with_lifecycle_if<cap_chain_clone_into, DT, IT>(k, [&](auto t) { typedef decltype(t) T; typedef typename T::DT D; typedef typename T::IT I;
       return FilterChain<SlipFilter<D, I, BS>, UnitFilterBlocked<D, I, BS>>(build_slip<D, I, BS>(f0, nb, mode), build_unitb<D, I, BS>(f1, nb, mode)); }, use, tag + "/real<slip,unit>");
-    if(k0 == "unit" && k1 == "slip") return with_lifecycle<DT, IT>(k, [&](auto t) { typedef decltype(t) T; typedef typename T::DT D; typedef typename T::IT I;
+    if(k0 == "unit" && k1 == "slip") return with_lifecycle_if<cap_chain_clone_into, DT, IT>(k, [&](auto t) { typedef decltype(t) T; typedef typename T::DT D; typedef typename T::IT I;
       return FilterChain<UnitFilterBlocked<D, I, BS>, SlipFilter<D, I, BS>>(build_unitb<D, I, BS>(f0, nb, mode), build_slip<D, I, BS>(f1, nb, mode)); }, use, tag + "/real<unit,slip>");
   }
   return true;
@@ -490,7 +523,7 @@ bool run_tuple(Ctx& k, int mode, const std::string& tag)
       if(mode == 1) return TupleFilter<VF1, VFB>(build_var<D, I, 1>(f["fs"][0], n0, mode), build_var<D, I, BS>(f["fs"][1], n1, mode));
       TupleFilter<VF1, VFB> tf; tf.template at<0>() = build_var<D, I, 1>(f["fs"][0], n0, mode); tf.template at<1>() = build_var<D, I, BS>(f["fs"][1], n1, mode); return tf; }, use, tag + "/tuple");
   if(fam == "nest")
-    return with_lifecycle<DT, IT>(k, [&](auto t) { typedef decltype(t) T; typedef typename T::DT D; typedef typename T::IT I; typedef VarFilter<D, I, 1> VF1; typedef VarFilter<D, I, BS> VFB;
+    return with_lifecycle_if<cap_chain_clone_into, DT, IT>(k, [&](auto t) { typedef decltype(t) T; typedef typename T::DT D; typedef typename T::IT I; typedef VarFilter<D, I, 1> VF1; typedef VarFilter<D, I, BS> VFB;
       TupleFilter<FilterChain<VF1, VF1>, VFB> tf;
       tf.template at<0>().template at<0>() = build_var<D, I, 1>(f["fs"][0]["fs"][0], n0, mode);
       tf.template at<0>().template at<1>() = build_var<D, I, 1>(f["fs"][0]["fs"][1], n0, mode);
@@ -507,7 +540,7 @@ bool run_power(Ctx& k, int mode, const std::string& tag)
   vec.template at<0>() = VecOf<DT, IT, 1>::make(k.c["v0"][0].ints(), den);
   vec.template at<1>() = VecOf<DT, IT, 1>::make(k.c["v0"][1].ints(), den);
   auto use = [&](const auto& g, const std::string& t) { return two_calls(k, g, vec, true, t); };
-  return with_lifecycle<DT, IT>(k, [&](auto t) { typedef decltype(t) T; typedef typename T::DT D; typedef typename T::IT I;
+  return with_lifecycle_if<cap_power_clone_into, DT, IT>(k, [&](auto t) { typedef decltype(t) T; typedef typename T::DT D; typedef typename T::IT I;
     PowerFilter<VarFilter<D, I, 1>, 2> pf; pf.template at<0>() = build_var<D, I, 1>(f["fs"][0], n0, mode); pf.template at<1>() = build_var<D, I, 1>(f["fs"][1], n1, mode); return pf; }, use, tag + "/power");
 }
 
